@@ -121,6 +121,10 @@ func (in *irInst) remStep() string {
 	if in.rm == nil || in.rm.res != "" {
 		return "bad-op"
 	}
+	if in.fdb != nil {
+		in.fdb.arm() // copy the wallet directory after every commit of this step (eng_rem_fork.go)
+		defer in.fdb.disarm()
+	}
 	sus, res := in.e.wm.VerifHandshake()
 	<-sus // the follower yields: the phase runs now
 	<-res // the phase has committed (or failed) and hands control back
